@@ -143,11 +143,31 @@ impl TVal {
     }
 }
 
+/// Order of `vals` below = `hkeys` of coq/C35/Spec.v; file keys are written as an index into
+/// `dkeys` (= hkeys + the two extra keys of the log target) when they are in it.
+const DKEYS: &[&str] = &["log", "repository-dir", "no-rir-tals", "tals", "extra-tals-dir", "exceptions", "strict", "stale",
+    "unsafe-vrps", "unknown-objects", "limit-v4-len", "limit-v6-len", "allow-dubious-hosts", "disable-rsync",
+    "rsync-command", "rsync-args", "rsync-timeout", "disable-rrdp", "rrdp-fallback", "rrdp-fallback-time",
+    "rrdp-max-delta-count", "rrdp-max-delta-list-len", "rrdp-timeout", "rrdp-read-timeout",
+    "rrdp-connect-timeout", "rrdp-tcp-keepalive", "rrdp-local-addr", "rrdp-root-certs", "rrdp-proxies",
+    "max-object-size", "max-ca-depth", "enable-bgpsec", "enable-aspa", "dirty", "validation-threads", "refresh",
+    "min-refresh", "retry", "expire", "history-size", "rtr-listen", "rtr-tls-listen", "http-listen",
+    "http-tls-listen", "systemd-listen", "rtr-tcp-keepalive", "rtr-client-metrics", "rtr-tls-key",
+    "rtr-tls-cert", "http-tls-key", "http-tls-cert", "log-level", "log-repository-issues", "pid-file",
+    "working-dir", "chroot", "user", "group", "tal-labels", "tal-dir", "syslog-facility", "log-file"];
+
+fn coq_key(k: &str) -> String {
+    match DKEYS.iter().position(|x| *x == k) {
+        Some(i) => format!("K {}", i),
+        None => format!("S {}", cs(k.as_bytes())),
+    }
+}
 fn coq_doc(d: &[(String, TVal)]) -> String {
-    coq_list(d.iter(), |(k, v)| format!("({}, {})", cs(k.as_bytes()), v.coq()))
+    coq_list(d.iter(), |(k, v)| format!("({}, {})", coq_key(k), v.coq()))
 }
 fn coq_conf(c: &[(&'static str, Val)]) -> String {
-    coq_list(c.iter(), |(k, v)| format!("({}, {})", cs(k.as_bytes()), v.coq()))
+    assert!(c.len() + 2 == DKEYS.len() && c.iter().zip(DKEYS.iter()).all(|(a, b)| a.0 == *b), "vals() order != DKEYS");
+    coq_list(c.iter(), |(_, v)| v.coq())
 }
 
 /// The TOML bindings of a config file as the reader classifies them.
@@ -348,7 +368,7 @@ fn run(input: &Value) -> CaseOut {
             obs["config"] = Value::Object(v1.iter().map(|(k, v)| (k.to_string(), v.json())).collect());
             obs["printed"] = json!(text);
             conf_term = format!("(Some {})", coq_conf(&v1));
-            doc_term = match &printed { Some(d) => coq_doc(d), None => "[(\"<unparsable>\"%string, TOther)]".into() };
+            doc_term = match &printed { Some(d) => coq_doc(d), None => "[(S \"<unparsable>\"%string, TOther)]".into() };
             match &second {
                 Err(why) => {
                     obs["reread"] = json!({"rejected_by": why});
@@ -446,7 +466,7 @@ fn random_option(rng: &mut Rng, out: &mut Vec<Value>) {
             1 => max.to_string(),
             2 => rng.range(0, max.min(100)).to_string(),
             3 => (max - rng.below(max.min(3) + 1).min(max)).to_string(),
-            _ => rng.range(0, max).to_string(),
+            _ => (if max == u64::MAX { rng.next() } else { rng.range(0, max) }).to_string(),
         }
     };
     match rng.below(13) {
@@ -603,13 +623,42 @@ fn gen(rng: &mut Rng, tier: &str) -> Vec<(String, Value)> {
     // (a) exhaustive small scope: every option alone, at every edge value of its type
     cases.push(case("default", None, vec![]));
     for f in FLAGS { cases.push(case("one.flag", None, sargs(&[f]))); }
-    for o in U64_OPTS.iter().chain(USIZE_OPTS).chain(U8_OPTS) {
-        for v in NUM_EDGES { cases.push(case("one.number", None, sargs(&[o, v]))); }
+    if thorough {
+        for o in U64_OPTS.iter().chain(USIZE_OPTS).chain(U8_OPTS) {
+            for v in NUM_EDGES { cases.push(case("one.number", None, sargs(&[o, v]))); }
+        }
+    } else {
+        // the edges of each option's own type and of the ranges involved (i64, u16, the prefix lengths)
+        for o in U64_OPTS {
+            for v in ["0", "1", "9223372036854775806", "9223372036854775807", "9223372036854775808",
+                      "18446744073709551615", "18446744073709551616", "-1", "x"] {
+                cases.push(case("one.number", None, sargs(&[o, v])));
+            }
+        }
+        for o in USIZE_OPTS {
+            for v in ["0", "1", "65534", "65535", "65536", "4294967296", "9223372036854775807",
+                      "9223372036854775808", "18446744073709551615", "18446744073709551616"] {
+                cases.push(case("one.number", None, sargs(&[o, v])));
+            }
+        }
+        for o in U8_OPTS {
+            for v in ["0", "1", "31", "32", "33", "127", "128", "129", "255", "256"] {
+                cases.push(case("one.number", None, sargs(&[o, v])));
+            }
+        }
     }
     for o in POLICY_OPTS { for v in ["reject", "warn", "accept", "Reject", "bogus"] { cases.push(case("one.enum", None, sargs(&[o, v]))); } }
     for v in ["never", "stale", "new", "x"] { cases.push(case("one.enum", None, sargs(&["--rrdp-fallback", v]))); }
-    for o in STRING_OPTS { for v in STRINGS { cases.push(case("one.string", None, sargs(&[o, v]))); } }
-    for o in PATH_OPTS { for v in PATHS { cases.push(case("one.path", None, sargs(&[o, v]))); } }
+    for (i, o) in STRING_OPTS.iter().enumerate() {
+        for (j, v) in STRINGS.iter().enumerate() {
+            if thorough || i == 0 || (i + j) % 4 == 0 { cases.push(case("one.string", None, sargs(&[o, v]))); }
+        }
+    }
+    for (i, o) in PATH_OPTS.iter().enumerate() {
+        for (j, v) in PATHS.iter().enumerate() {
+            if thorough || (i + j) % 3 == 0 { cases.push(case("one.path", None, sargs(&[o, v]))); }
+        }
+    }
     for o in PATHLIST_OPTS {
         for v in PATHS { cases.push(case("one.list", None, sargs(&[o, v]))); }
         cases.push(case("one.list", None, sargs(&[o, "/a", o, "b", o, "/a"])));
@@ -686,7 +735,7 @@ fn gen(rng: &mut Rng, tier: &str) -> Vec<(String, Value)> {
     cases.push(case("file.args", Some(format!("{}history-size = 7\nrtr-listen = [\"127.0.0.1:1\"]\ntal-labels = [[\"a\", \"b\"]]\nrsync-args = [\"-x\"]\n", base)),
         sargs(&["--history", "9", "--rtr", "[::1]:2", "--no-rir-tals", "--tal", "arin-ote"])));
     // (c) structured random: several options, with and without a base file
-    let n = if thorough { 4000 } else { 450 };
+    let n = if thorough { 4000 } else { 300 };
     for i in 0..n {
         let mut r = rng.fork();
         let mut a = Vec::new();
@@ -697,13 +746,13 @@ fn gen(rng: &mut Rng, tier: &str) -> Vec<(String, Value)> {
             cases.push(case("random.args", None, a));
         }
     }
-    let n = if thorough { 2500 } else { 300 };
+    let n = if thorough { 2500 } else { 200 };
     for _ in 0..n {
         let mut r = rng.fork();
         cases.push(case("random.file", Some(random_file(&mut r, false)), vec![]));
     }
     // (d) malformed stream
-    let n = if thorough { 1500 } else { 200 };
+    let n = if thorough { 1500 } else { 150 };
     for _ in 0..n {
         let mut r = rng.fork();
         cases.push(case("malformed.file", Some(random_file(&mut r, true)), vec![]));
